@@ -3,6 +3,7 @@ from __future__ import annotations
 import ast
 import copy
 import inspect
+import keyword
 import logging
 from dataclasses import dataclass, is_dataclass, make_dataclass
 from typing import (
@@ -930,9 +931,14 @@ def remap_by_types(
                 (ast.literal_eval(f), self.lookup_type(v))  # type: ignore
                 for f, v in zip(t_node.keys, t_node.values)
             ]
-            dict_dataclass = make_dataclass("dict_dataclass", fields)
-
-            self._found_types[t_node] = dict_dataclass
+            # Field access is only followed for keys that can be dataclass fields. Any
+            # other dictionary is still a perfectly good expression of unknown type.
+            field_names = [n for n, _ in fields]
+            if len(set(field_names)) == len(field_names) and all(
+                isinstance(n, str) and n.isidentifier() and not keyword.iskeyword(n)
+                for n in field_names
+            ):
+                self._found_types[t_node] = make_dataclass("dict_dataclass", fields)
             return t_node
 
         def visit_Constant(self, node: ast.Constant) -> Any:
